@@ -670,7 +670,7 @@ func (prog *Program) genSynth(p0 *packages.Package) (string, error) {
 			fmt.Fprintf(&b, "\n// %s %s (contracts line %d)\nfunc %s%s(%s) %s { return %s }\n", fc.Key(), cl.Kind, cl.Line, cl.FnName, tparams, strings.Join(params, ", "), retType, txt)
 			return nil
 		}
-		for _, cl := range fc.Requires {
+		for _, cl := range append(append([]*Clause{}, fc.Requires...), fc.Assumes...) {
 			if err := emit(cl, false, "", "bool"); err != nil {
 				return "", err
 			}
